@@ -1,5 +1,75 @@
 #![allow(non_snake_case)]
-// unit `chordal_compact` : index-level pieces of the compact chordal decomposition (C18)
+// unit `chordal_compact` : index-level pieces of the compact chordal decomposition, of its reversal and of the compact / standard dispatch (C18)
+// (the chordal module is compiled only with the cargo feature `sdp`; directive `//@features serde,sdp` makes rule R12 / the field filter
+//  evaluate `#[cfg(feature = ..)]` for that feature set, so that DefaultSettings keeps its chordal_* fields; the extractor works on source text)
+//
+// PROVED (real text, unbounded; panic-freedom = every index / overflow / unwrap obligation, plus the clause given):
+//   decomp/augment_compact.rs
+//     get_rows_subset / get_rows_vec / get_rows_mat   None => no listed row lies in row_range; Some(s..e) => exactly the positions s..e (of the
+//         sorted list / of column `col`) hold the rows inside row_range.  NOTE Some may be EMPTY (rows [1, 10], row_range 3..5 gives Some(1..1)):
+//         "None iff empty" does not hold; harmless, the consumers treat an empty range like None
+//     get_row_index       Some(p) is THE position of the window that stores row row_range.start + k, None: no position of the window stores it
+//     modify_clique_rows  v[p] <- new_row_val at exactly that position, else nothing changes
+//     parent_block_indices  = packed(rank of i, rank of j) in the sorted parent clique (= packed(a, b) when i, j are its members number a, b)
+//     get_block_indices   statement slice `get_block_indices_fill`: the triplet list before sorting = sep x sep (upper, overlap flag) ++
+//         snode x snode (upper) ++ snode x sep (all pairs, smaller first), in this order, nothing else
+//     add_clique_entries  one clique, one column: a stored entry whose cone row is the packed index of the non-overlap block index number h moves
+//         to row row_ptr + h (win_state / hit); in column 0 the overlap block index c2 gets the pair (row_ptr + c2, parent_rows.start + position
+//         of the same entry in the parent clique) at slots overlap_ptr + 2*#{earlier overlaps} (+1) (ov_state); b like a column, column 0 only;
+//         returned pointer = overlap_ptr + 2 * #overlaps (column 0) resp. unchanged; nothing else written
+//     add_entries_with_cone  (cone that is not decomposed) every stored entry of A / b with its row in the cone's rows keeps its slot and gets
+//         row - row_range.start + row_ptr; no other slot written; cone copied, cone map entry (previous orig_index + 1 | 0, None) appended;
+//         returns (row_ptr + nvars, overlap_ptr)
+//     clique_rows_map     (real HashMap, vstd model) clique of order i owns rows row_start + sum_{k > i} tri(nblk[k]) .. + tri(nblk[i]), keyed by
+//         snode_post[i]: the same rows add_entries_with_sparsity_pattern walks through in the same descending order
+//     alternating_sequence (ones, then (+1, -1) pairs from n_start), extra_columns (pair t -> column start_val + t, both slots), findnz (slot k
+//         carries column and value of stored entry k; slots behind A.nnz() untouched), find_A_dimension
+//   decomp/reverse_compact.rs: largest_nblk (>= every block size of every pattern)
+//   decomp/mod.rs: decomp_augment (the setting alone selects the form; which bookkeeping field is filled), decomp_reverse (result has the
+//     original sizes (n, m, m), x = leading n entries of the internal x; no panic if H / cone_maps are consistent with the setting)
+//   algebra/sparsevector/mod.rs: SparseVector::new (indices strictly increasing, exactly the entries != 0, with their values) - this is what
+//     makes b's index list sorted; supernode_tree.rs: get_nblk
+// ASSUMED (hand-written, not verified here):
+//   coord_to_upper_triangular_index, triangular_number: contracts copied from unit scalarmath (PROVED there);
+//   std: Range::clone, Range::is_empty (generic spec + admitted instance for usize: ax_range_is_empty_usize), `r.eq(0..0)` on a Range =
+//     Iterator::eq = "r yields nothing" (rule `rangeeq`, helper range_yields_nothing), partition_point / min / max (prelude/std_assumed.rs, rules
+//     R23 / R18), Iterator::max().unwrap_or(&0) (rule `itermax0`, helper usize_iter_max_or0), vstd's HashMap model for usize keys
+//     (vstd::std_specs::hash::group_hash_axioms);
+//   rule `stepby`: `for i in (a..b).step_by(k)` as the while loop a, a+k, .. < b (its `+= k` overflow obligation is discharged from
+//     total_length <= usize::MAX - 2, true for any Vec);
+//   SupportedConeT (opaque stand-in: nvars uninterpreted, clone returns an equal value), DefaultVariables::new (lengths n, m, m);
+//   ChordalInfo::{get_decomposed_dim_and_overlaps, decomp_augment_compact, decomp_augment_standard, decomp_reverse_compact,
+//     decomp_reverse_standard, psd_completion}: bodies out of reach (peekable iterators, closures, LAPACK).  Assumed of them: which of H /
+//     cone_maps they fill (by inspection of `self.cone_maps = Some(..)` / `self.H = Some(..)`), that the reversal routines keep the lengths of
+//     s and z and do not touch x (by inspection: they only write new_vars.s / new_vars.z).
+// PRECONDITIONS and the call sites:
+//   sorted rows (`rows_sorted(A)`, `colptr[0] == 0`, `nondecreasing(b.nzind)`): b.nzind by SparseVector::new (proved here); A is the user's
+//     (presolved) constraint matrix and is NOT validated by DefaultSolver::new (check_format is never called on it): a user matrix with unsorted
+//     row indices inside a column makes partition_point unspecified and silently yields a wrong decomposed problem (no panic);
+//   add_clique_entries `overlap_ptr >= window end` and `overlap_ptr + 2 * #overlaps <= A_I.len()`: overlap_ptr starts at A.nnz() and A_I has
+//     A.nnz() + 2 * n_overlaps slots (find_compact_A_b_and_cones); that n_overlaps (get_decomposed_dim_and_overlaps: sum of tri(|separator|))
+//     equals the number of overlap triplets over all cliques is NOT proved here;
+//   extra_columns `total_length >= 1`: holds if n_overlaps >= 1, see D3;
+//   decomp_reverse `setting consistent with H / cone_maps`: VIOLABLE, see D4;
+//   vertices < 2^31, pointers < 2^62: sizes of one problem in memory.
+// DEFECT CANDIDATES (described, not fixed; none of them is in a function whose contract had to be weakened):
+//   D2 (problemdata.rs, outside this unit but it is the call site): `try_chordal_info(A, b, &cones, settings)` analyses the ORIGINAL A, b and cones
+//      while `decomp_augment` is then called with the PRESOLVED `A_new` / `b_new`.  When the presolver removes rows (a nonnegative cone with
+//      entries of b >= 1e20, presolve_enable = true) and a PSD cone of order > 3 with a chordal pattern is decomposed, the row ranges held in
+//      `init_cones` / `init_dims` no longer describe the matrix that is decomposed: the precondition "row_range of cone i = rows of cone i in A"
+//      of add_entries_with_cone / add_entries_with_sparsity_pattern is false (slots of A_I keep usize::MAX or rows are attributed to the wrong
+//      cone), and decomp_reverse returns vectors of the unreduced size m to reverse_presolve, which expects the reduced size.
+//   D3 extra_columns: `v.len() - 1` underflows for total_length == 0, i.e. A.nnz() == 0 and n_overlaps == 0 (panic in debug, out-of-bounds panic at
+//      v[0] in release).  NOT shown reachable: a decomposition that happens has >= 2 cliques and connect_graph makes the elimination tree
+//      connected, so every non-root clique should have a non-empty separator (n_overlaps >= 1); that argument is not proved anywhere.
+//   D4 decomp_reverse: `pub settings` of the solver is writable between `new` and `solve`; flipping chordal_decomposition_compact after setup
+//      trips the assert_eq! (panic in solution post-processing).
+// DROPPED: find_compact_A_b_and_cones, add_entries_with_sparsity_pattern (peekable, map / collect closures, deferred `let`), decomp_augment_compact
+//   (blockdiag + copy; contracts of blockdiag live in unit csc_utils), the sort of get_block_indices (`sort_by_cached_key` closure) - hence NOT
+//   proved: that the sorted triplets enumerate the clique block in packed order, i.e. that counter h is the packed position of (i, j) in the
+//   clique; get_clique_by_index (IndexSet::extend); decomp_reverse_compact's loop over zip(old_cones, cone_maps) (its two callees are in unit
+//   chordal_decomp: add_blocks_with_cone and the clique loop of add_blocks_with_sparsity_pattern; the loading of the clique buffer through
+//   IndexSet iteration + sort is not covered anywhere); psd_completion / psd_complete (see unit dense_math for `complete`).
 use vstd::prelude::*;
 use std::ops::Range;
 use std::collections::HashMap;
@@ -559,8 +629,15 @@ it6
 // ---- row ranges of the clique blocks of one decomposed cone ----
 // rows taken by the cliques i+1 .. n-1 (they come first: the loop runs in descending order)
 pub open spec fn rows_after(nblk: Seq<usize>, i: int, n: int) -> int decreases n - i { if i + 1 >= n { 0 } else { rows_after(nblk, i + 1, n) + tri(nblk[i + 1] as int) } }
-pub proof fn lemma_rows_after_nonneg(nblk: Seq<usize>, i: int, n: int) ensures rows_after(nblk, i, n) >= 0 decreases n - i
-{ if i + 1 < n { lemma_rows_after_nonneg(nblk, i + 1, n); lemma_tri_step(nblk[i + 1] as int); } }
+pub proof fn lemma_rows_after_mono(nblk: Seq<usize>, j: int, i: int, n: int)
+    requires j <= i,
+    ensures 0 <= rows_after(nblk, i, n) <= rows_after(nblk, j, n),
+    decreases i - j, n - i,
+{
+    if j < i { lemma_rows_after_mono(nblk, j + 1, i, n); if j + 1 < n { lemma_tri_step(nblk[j + 1] as int); } }
+    else if i + 1 < n { lemma_rows_after_mono(nblk, i + 1, i + 1, n); lemma_tri_step(nblk[i + 1] as int); }
+}
+pub open spec fn crm_entry(m: Map<usize, Range<usize>>, key: usize, lo: int, hi: int) -> bool { m.contains_key(key) && m[key].start == lo && m[key].end == hi }
 impl SuperNodeTree {
 //@fn file=src/solver/chordal/supernode_tree.rs in="impl SuperNodeTree" name=get_nblk ret=r
 //@contract
@@ -579,21 +656,39 @@ impl SuperNodeTree {
     ensures
         // C18 (overlaps tied to the parent block): the clique of order i owns the rows that add_entries_with_sparsity_pattern gives it when it
         // walks the cliques in the same descending order: the blocks of the cliques i+1.. come first, then tri(nblk[i]) rows; keyed by clique number
-        forall|i: int| 0 <= i < sntree.n_cliques ==> res@.contains_key(#[trigger] sntree.snode_post@[i])
-            && res@[sntree.snode_post@[i]].start == row_start + rows_after(sntree.nblk->0@, i, sntree.n_cliques as int)
-            && res@[sntree.snode_post@[i]].end == row_start + rows_after(sntree.nblk->0@, i, sntree.n_cliques as int) + tri(sntree.nblk->0@[i] as int),
+        forall|i: int| 0 <= i < sntree.n_cliques ==> crm_entry(res@, #[trigger] sntree.snode_post@[i], row_start + rows_after(sntree.nblk->0@, i, sntree.n_cliques as int),
+            row_start + rows_after(sntree.nblk->0@, i, sntree.n_cliques as int) + tri(sntree.nblk->0@[i] as int)),
 //@pre
     broadcast use vstd::std_specs::hash::group_hash_axioms;
     let ghost rs0 = row_start as int;
     let ghost nb = sntree.nblk->0@;
     let ghost nn = sntree.n_cliques as int;
+//@iter 1
+it
 //@loop 1
         invariant
-            nb == sntree.nblk->0@, nn == sntree.n_cliques, n_cliques == nn, sntree.nblk is Some, nn <= nb.len(), nn <= sntree.snode_post@.len(),
+            nb == sntree.nblk->0@, nn == sntree.n_cliques, n_cliques == nn, sntree.nblk is Some, nn <= nb.len(), nn <= sntree.snode_post@.len(), rs0 >= 0,
             forall|i: int| 0 <= i < nn ==> #[trigger] nb[i] < 0x1_0000_0000,
             forall|i: int, k: int| 0 <= i < k < nn ==> sntree.snode_post@[i] != sntree.snode_post@[k],
             rs0 + rows_after(nb, -1, nn) <= usize::MAX,
-            row_start == rs0 + rows_after(nb, $var1 as int, nn) + tri(nb[$var1 as int] as int) || true,
+            it.seq().len() == nn, forall|k: int| 0 <= k < nn ==> #[trigger] it.seq()[k] == nn - 1 - k,
+            row_start == rs0 + rows_after(nb, nn - 1 - it.index@, nn),
+            forall|i: int| nn - it.index@ <= i < nn ==> crm_entry(out@, #[trigger] sntree.snode_post@[i], rs0 + rows_after(nb, i, nn), rs0 + rows_after(nb, i, nn) + tri(nb[i] as int)),
+//@body_start 1
+        broadcast use vstd::std_specs::hash::group_hash_axioms;
+        let ghost gi = nn - 1 - it.index@;
+        let ghost out0: Map<usize, Range<usize>> = out@;
+        proof {
+            assert($var1 == gi);
+            assert(rows_after(nb, gi - 1, nn) == rows_after(nb, gi, nn) + tri(nb[gi] as int));
+            lemma_rows_after_mono(nb, -1, gi - 1, nn);
+        }
+//@body_end 1
+        proof {
+            assert forall|i: int| gi <= i < nn implies crm_entry(out@, #[trigger] sntree.snode_post@[i], rs0 + rows_after(nb, i, nn), rs0 + rows_after(nb, i, nn) + tri(nb[i] as int)) by {
+                if i > gi { assert(sntree.snode_post@[gi] != sntree.snode_post@[i]); assert(crm_entry(out0, sntree.snode_post@[i], rs0 + rows_after(nb, i, nn), rs0 + rows_after(nb, i, nn) + tri(nb[i] as int))); }
+            }
+        }
 //@end
 
 // ---- the sparse form of b (establishes the sortedness that get_rows_vec / get_row_index rely on) ----
